@@ -11,8 +11,8 @@ a1 == <<97,49>>   a2 == <<97,50>>
 MC_PNames == IF NP >= 3 THEN {p1, p2, p3} ELSE IF NP = 2 THEN {p1, p2} ELSE {p1}
 MC_ANames == IF NA >= 2 THEN {a1, a2} ELSE IF NA = 1 THEN {a1} ELSE {}
 MC_PRates == {FZero, FOfNat(100)}
-MC_ARates == {FZero, FOfNat(100), FOfNat(200), FOfNat(300)}     \* sub-frame ratios 1, 2, 3 (and their changes in both directions)
-MC_FrameKinds == {"conf", "lesspt", "morept", "rename", "lessch", "morech", "empty", "undeclA", "undeclP"}
+MC_ARates == {FZero, FOfNat(50), FOfNat(100), FOfNat(200), FOfNat(300)}     \* sub-frame ratios 0 (analog rate below the point rate), 1, 2, 3 and their changes in both directions
+MC_FrameKinds == {"conf", "lesspt", "morept", "rename", "lessch", "morech", "empty", "undeclA", "undeclP", "lessch0", "morech0"}
 MC_ColKinds == {"ok1", "ok2", "dup", "newdup", "short", "none", "fewer", "more", "zero", "lesssub", "moresub"}
 MC_Tags == {1}
 MC_UserParams == <<>>
@@ -20,5 +20,6 @@ MC_LockNames == {}
 MC_CallerIds == {}
 
 MC_Files == <<>>
+MC_AliasGroups == {}
 Dump == ~Sampled(Len(hist)) \/ PrintT(ToJson([path |-> hist, op |-> lastOp', out |-> lastOut', sets |-> lastSets', post |-> Abs(obj')]))
 =========================================================================
